@@ -1111,13 +1111,10 @@ func (db *DatabaseCollectionWithUser) OnDemandImportForWrite(ctx context.Context
 	if syncDataErr := doc.validateSyncDataForImport(ctx, db.dbCtx, docid); syncDataErr != nil {
 		return syncDataErr
 	}
-	// Check whether the doc requiring import is an SDK delete
-	isDelete := false
-	if doc.Body(ctx) == nil {
-		isDelete = true
-	} else {
-		isDelete = deleted
-	}
+	// Check whether the doc requiring import is an SDK delete. A tombstone that still carries sync metadata is
+	// unmarshalled with an empty (non-nil) body and doc.Deleted set. Whether the incoming write is itself a delete
+	// says nothing about the external mutation being imported.
+	isDelete := doc.Deleted || doc.Body(ctx) == nil
 	// Use an admin-scoped database for import
 	importDb := DatabaseCollectionWithUser{DatabaseCollection: db.DatabaseCollection, user: nil}
 
